@@ -3273,7 +3273,7 @@ package connect
 //@   tags C01
 //@   assigns nothing
 //@ func (*grpcHandlerConn).Close$1()
-//@   tags C02, C05
+//@   tags C02, C05, C11, C19
 //@   requires deref(hc) != nil && deref(hc).request != nil && deref(hc).request.Body != nil
 //@   assigns everything
 //@   ensures old(deref(retErr)) != nil ==> deref(retErr) == old(deref(retErr))   // label: closing-the-request-body-never-replaces-the-handler's-error
